@@ -19,7 +19,7 @@ R, P = 3, 3
 
 def build(cfg):
     fclass, flt, est = cfg["fclass"], cfg["flt"], cfg["est"]
-    minsucc = {"thr": 2, "filter": 1, "est": 1, "pert": 2, "allnan": 0, "exc": 2}[fclass]
+    minsucc = {"thr": 2, "filter": 1, "est": 1, "pert": 2, "allnan": 0, "exc": 2, "estpert": 1, "allnanpert": 0}[fclass]
     if fclass == "filter" and flt.startswith("cvar"):
         minsucc = 0                                   # a CVaR filter is only left empty when every realization fails
     c = {
@@ -27,7 +27,7 @@ def build(cfg):
         "realizations": {"weights": [1.0] * R, "realization_min_success": minsucc},
         "objectives": {"weights": [1.0]},
         "nonlinear_constraints": {"lower_bounds": [-INF], "upper_bounds": [100.0]},
-        "gradient": {"number_of_perturbations": P, "perturbation_min_success": P if fclass == "pert" else 1,
+        "gradient": {"number_of_perturbations": P, "perturbation_min_success": P if fclass in ("pert", "estpert") else 1,
                      "perturbation_magnitudes": 0.01},
         "optimizer": {"method": "rvscript/script",
                       "options": {"script": [{"f": "f" in r, "g": "g" in r, "x": None,
@@ -81,6 +81,10 @@ def drive(sc):
                 obj[bad] = np.nan
             elif fclass == "pert" and perts is not None:
                 obj[(perts == 0)] = np.nan
+            elif fclass == "estpert" and perts is not None:
+                obj[(perts == 0) & (real < 2)] = np.nan          # realizations 0 and 1 lose a perturbation: one realization is left
+            elif fclass == "allnanpert" and perts is not None:
+                obj[perts >= 0] = np.nan
         return EvaluatorResult(objectives=obj, constraints=con)
 
     def finished(event):
@@ -112,7 +116,7 @@ def drive(sc):
                    "code": exit_name(code) if outcome == "ok" else outcome, "nfun": state["nfun"]})
     trace = [{"ev": "Scenario", "cfg": cfg}] + events
     feats = {"nontrivial": bool(failAt > 1 or (failAt >= 1 and (cfg["flt"] != "none" or cfg["tf"] != "none" or cfg["est"] == "std"
-                                                                   or fclass in ("allnan", "pert")))),
+                                                                   or fclass in ("allnan", "pert", "estpert", "allnanpert")))),
              "key": str(cfg), "fclass": fclass, "tf": cfg["tf"], "kind": cfg["kind"], "flt": cfg["flt"]}
     return trace, feats
 
